@@ -448,22 +448,23 @@ func behNames(s []beh) []string {
 
 type proxyCounters struct {
 	*adminCounters
-	byLabel map[string]int64
+	byLabel                                                                                               map[string]int64
 	runs, faultRuns, forwarded, applied, success, failure, failApplied, failNotApplied, successAfterFault int64
-	retried, depthCapped, workerSteps, transient, pgRuns, managedRuns, managedPops                         int64
+	retried, depthCapped, workerSteps, transient, pgRuns, managedRuns, managedPops                        int64
 }
 
 type proxyShared struct {
-	r         *runner.Run
-	ks        []kind
-	filter    []mcpCase
-	byN       map[int][]mcpCase
-	scoped    []mcpCase
-	deadline  time.Time
-	budgetHit atomic.Bool
-	mu        sync.Mutex
-	sampled   map[string]bool
-	fullPops  map[string]bool // populations that get the whole selector set under every transport behaviour (thorough)
+	r          *runner.Run
+	ks         []kind
+	filter     []mcpCase
+	byN        map[int][]mcpCase
+	scoped     []mcpCase
+	deadline   time.Time
+	budgetHit  atomic.Bool
+	mu         sync.Mutex
+	sampled    map[string]bool
+	transients []string        // refusals on an undisturbed transport that did not repeat (environment), first three
+	fullPops   map[string]bool // populations that get the whole selector set under every transport behaviour (thorough)
 }
 
 // faultCase: the selector subset that is crossed with every transport behaviour in the quick tier: for the
@@ -618,10 +619,12 @@ func (e *proxyEnv) runPop(s *proxyShared, pop []int, c *proxyCounters) bool {
 				return v, false, false
 			}
 			st.pre, st.dirty = post, v.dirty
-			if strings.HasPrefix(v.what, "valid-call-refused:") && try < 2 && v.seen == 0 {
-				// nothing reached the front: a failed loopback dial on a loaded machine looks the same as a
-				// local refusal; a local refusal repeats, a failed dial does not
+			if strings.HasPrefix(v.what, "valid-call-refused:") && try < 2 {
+				// the only verdict that real time can produce: on a loaded machine a loopback dial or the client's
+				// 5 s timeout may fail although nothing is wrong. A refusal made by the code repeats, a hiccup does not.
 				c.transient++
+				s.noteTransient(v.msg)
+				st.dirty = true
 				continue
 			}
 			e.count(s, cs, backend, script, v, c, st)
@@ -796,6 +799,14 @@ func (e *proxyEnv) report(s *proxyShared, st *popState, cs *mcpCase, backend str
 	st.dirty = true
 }
 
+func (s *proxyShared) noteTransient(msg string) {
+	s.mu.Lock()
+	defer s.mu.Unlock()
+	if len(s.transients) < 3 {
+		s.transients = append(s.transients, clip(msg, 400))
+	}
+}
+
 func (s *proxyShared) sample(c *mcpCase, desc []string, backend string, script []beh, v proxyVerdict) {
 	k := c.Op.Tool + "|" + scriptName(script)
 	s.mu.Lock()
@@ -842,15 +853,23 @@ func (s *proxyShared) slowLane(pops [][]int, wg *sync.WaitGroup) {
 				c := &proxyCounters{adminCounters: newAdminCounters(), byLabel: map[string]int64{}}
 				st := &popState{pop: pop}
 				for _, script := range [][]beh{nil, {bApplyHang}} {
-					if why := e.rebuildPop(s, st); why != "" {
-						r.Infra("c14 mcp-proxy slow lane: %s", why)
-						return
-					}
-					st.desc = popDesc(st.w, s.ks, pop)
-					v, _, err := e.judge(st.w, cs, proxyBackends[0], script, st.pre)
-					if err != nil {
-						r.Infra("c14 mcp-proxy slow lane: population %v tool %s transport %s: %v", st.desc, cs.Op.Tool, scriptName(script), err)
-						return
+					var v proxyVerdict
+					for try := 0; ; try++ {
+						if why := e.rebuildPop(s, st); why != "" {
+							r.Infra("c14 mcp-proxy slow lane: %s", why)
+							return
+						}
+						st.desc = popDesc(st.w, s.ks, pop)
+						var err error
+						if v, _, err = e.judge(st.w, cs, proxyBackends[0], script, st.pre); err != nil {
+							r.Infra("c14 mcp-proxy slow lane: population %v tool %s transport %s: %v", st.desc, cs.Op.Tool, scriptName(script), err)
+							return
+						}
+						if !strings.HasPrefix(v.what, "valid-call-refused:") || try >= 2 {
+							break
+						}
+						c.transient++ // see runPop
+						s.noteTransient(v.msg)
 					}
 					e.count(s, cs, proxyBackends[0], script, v, c, st)
 					if v.what != "" {
@@ -873,6 +892,7 @@ func (s *proxyShared) slowLane(pops [][]int, wg *sync.WaitGroup) {
 				for k := range c.distinct {
 					r.Distinct(k)
 				}
+				r.Add("mcp_proxy_transient_dial_failures", c.transient)
 			}(n, pop, cs)
 		}
 	}
@@ -1018,6 +1038,9 @@ func mcpProxyPart(r *runner.Run) {
 	wg.Wait()
 	if s.budgetHit.Load() {
 		r.NotExhaustive(fmt.Sprintf("mcp-proxy part time budget: %d of %d (population, flavour) items finished", done.Load(), len(items)))
+	}
+	if len(s.transients) > 0 {
+		r.Set("mcp_proxy_transient_examples", s.transients)
 	}
 	r.Add("mcp_proxy_populations", done.Load())
 	r.Set("mcp_proxy_wall_s", time.Since(start).Seconds())
